@@ -33,7 +33,10 @@ TRUSTED = ['Model/Migrate.v is hand-written: TableDataSet (14 actions + exceptio
            'of the input) are NOT modelled: the driver theorems quantify over arbitrary migration functions',
            'monitor: every migration returns tdset.apply_doc_actions(...) and mutates the tdset in no other way '
            '(AST check + final tdset compared with the model)',
-           'row ids are ints or None and column ids are strings in the model; other documents are skipped and counted']
+           'row ids are ints or None and column ids are strings in the model; other documents are skipped and counted',
+           'Model/MigrateSites.v is hand-written: the raise behaviour of the six places where migrations 15, 16, 29, 34, '
+           '35, 45 read JSON out of a Text cell; compared each run with the real migrations on one-cell documents; '
+           'json.loads itself is trusted']
 ASSUMPTIONS = ['premise of the search: metadata cells hold values of their declared types as stored in the document '
                'file; metadata is referentially consistent (tables have columns, a view section names a table, '
                'old-style summary names carry existing column refs)',
@@ -48,7 +51,9 @@ LEVEL_TEXT = ('kernel (weak). Kernel-checked for ALL migration functions, tdsets
               'order, each on its predecessor\'s tdset, returns their actions followed by the version update, and '
               'adds no failure of its own; actions naming only _grist_ tables (more generally: not naming table u) '
               'leave user tables (table u) untouched; the schema after applying actions is determined by the '
-              'Add/Remove/Rename/Modify Column|Table subsequence. NOT proved: that the 46 real migration bodies never '
+              'Add/Remove/Rename/Modify Column|Table subsequence. For the six JSON-reading sites (raise-only model): '
+              'C25_json_sites_refuted (valid JSON of another shape raises, at every site) and '
+              'C25_json_sites_total_on_expected_shapes (no raise on the shape the migration expects). NOT proved: that the 46 real migration bodies never '
               'raise and reach schema_create_actions() on all type-correct metadata (C25_full_statement stays a '
               'Definition) - this is covered only by the differential link and the search on generated documents of '
               'every version, which does find documents on which they raise (known findings).')
@@ -497,6 +502,10 @@ def problems(r):
     sv = None
   if sv != cur or type(sv) is not int:
     out.append(('version-not-current', 'schemaVersion after migration is %r, not %r' % (sv, cur)))
+  rows = data.get('_grist_DocInfo', ([], {}))[0]
+  if not rows or rows[0] != 1 or 1 in rows[1:]:
+    # the hypothesis docinfo_ok of C25_version_after_migration, monitored
+    out.append(('docinfo-shape', '_grist_DocInfo row ids after migration are %r (record 1 must come first, once)' % (rows,)))
   last = actions.UpdateRecord('_grist_DocInfo', 1, {'schemaVersion': cur})
   if not r.acts or r.acts[-1] != last:
     out.append(('no-version-update', 'the last returned action is not the schemaVersion update'))
@@ -585,7 +594,9 @@ def same_values(a, b):
 # Classifying an exception: which cell shape is to blame (one kind per root cause)
 
 def _num_or_none(x):
-  return x is None or (isinstance(x, (int, float)) and x == x and abs(x) != float('inf'))
+  if isinstance(x, int):
+    return abs(x) < 2 ** 1000               # int / 1000 overflows a float beyond 1000 * 2**1024
+  return x is None or (isinstance(x, float) and x == x and abs(x) != float('inf'))
 
 
 def _hashable_scalar(x):
@@ -947,8 +958,10 @@ def gen_tds_case(rng):
     tcols = list(scratch.all_tables[t].columns) if t in scratch.all_tables else []
     fresh = [x for x in [1, 2, 3, 4, 5, 6, 7] if x not in trows]
     if k in (0, 1, 6):
-      rids = fresh if rng.random() < 0.9 else [1, 2, None]
+      rids = fresh if rng.random() < 0.8 else [1, 2, None]
       ids = rng.sample(rids, min(n, len(rids)))
+      if rng.random() < 0.15:
+        ids = [rng.choice([None, 7]) for _ in range(n)]     # duplicate ids, as migrations 25/26/30/40 add them
     else:
       rids = trows if trows and rng.random() < 0.9 else [1, 2, 3, 4, 5, None]
       ids = [rng.choice(rids) for _ in range(n)]
@@ -1042,7 +1055,7 @@ def correspond(ctx):
     ctx.broken('monitor:migration does not return tdset.apply_doc_actions(...)', msg)
   # 1. random action streams through the TableDataSet model
   cases, kept = [], []
-  for _ in range(ctx.n(400, 6000)):
+  for _ in range(ctx.n(300, 4000)):
     before, acts, exc, after = gen_tds_case(ctx.rng)
     try:
       cases.append(apply_case(before, acts, exc, after))
@@ -1051,14 +1064,14 @@ def correspond(ctx):
       continue
     kept.append((before, acts, exc))
     kinds = sorted({type(a).__name__ for a in acts})
-    ctx.count(('tds', len(kept)), nontrivial=True, kind='tds-stream:' + ('raises' if exc else 'ok'),
+    ctx.count(('tds', cases[-1]), nontrivial=bool(acts), kind='tds-stream:' + ('raises' if exc else 'ok'),
               sample={'actions': [repr(a) for a in acts][:3], 'raises': type(exc).__name__ if exc else None})
     for k in kinds:
       ctx.bump('tds-action:' + k)
   # 2. real migrations on generated documents of every version: driver model + the returned actions replayed
   lcases, runs = [], []
   empty = ({}, {})
-  for doc in doc_stream(ctx, ctx.n(1, 6), 'expected'):
+  for doc in doc_stream(ctx, ctx.n(1, 4), 'expected'):
     mo = ctx.rng.random() < 0.3
     r = run_doc(doc, mo)
     needall = r.exc is not None and str(r.exc).startswith('need all tables')
@@ -1072,7 +1085,7 @@ def correspond(ctx):
       continue
     lcases.append('(%s, %s)' % (d, a))
     runs.append((r, d, a))
-    ctx.count(('link', doc.version, len(runs)), nontrivial=bool(r.rec) or needall,
+    ctx.count(('link', lcases[-1]), nontrivial=bool(r.rec) or needall,
               kind='link:v%02d' % doc.version,
               sample={'version': doc.version, 'migrations_run': [v for v, _ in r.rec][:4],
                       'actions': len(r.acts or []), 'user_tables': doc.user_tables})
@@ -1091,19 +1104,28 @@ def correspond(ctx):
     except Exception as e:
       res[key] = e
   th = [threading.Thread(target=wave, args=('tds', 'tds', IMPORTS, APPLY_CHECK, cases),
-                         kwargs=dict(shard=max(1, -(-len(cases) // 4)) if ctx.tier == 'quick' else 500, timeout=900,
+                         kwargs=dict(shard=len(cases) if ctx.tier == 'quick' else 750, timeout=900,
                                      extra_defs=POOL.defs_for, case_type=APPLY_TYPE)),
         threading.Thread(target=wave, args=('link', 'link', IMPORTS, both, lcases),
-                         kwargs=dict(shard=shard8(lcases) if ctx.tier == 'quick' else 8, timeout=900, extra_defs=POOL.defs_for,
+                         kwargs=dict(shard=max(1, -(-len(lcases) // 3)) if ctx.tier == 'quick' else 12, timeout=900,
+                                     extra_defs=POOL.defs_for,
                                      case_type='(%s) * (%s)' % (DRIVER_TYPE, APPLY_TYPE)))]
+  scases, sinfo = site_cases(ctx)
+  th.append(threading.Thread(target=wave, args=('sites', 'sites', IMPORTS + ['Grist.Model.MigrateSites'], SITE_CHECK,
+                                                scases),
+                             kwargs=dict(shard=len(scases) if ctx.tier == 'quick' else 600, timeout=900, extra_defs=POOL.defs_for,
+                                         case_type=SITE_TYPE)))
   for t in th:
     t.start()
   for t in th:
     t.join()
-  for key in ('tds', 'link'):
+  for key in ('tds', 'link', 'sites'):
     if isinstance(res.get(key), Exception):
       raise res[key]
-  ctx.log('both streams evaluated in Coq')
+  ctx.log('the three streams evaluated in Coq')
+  for i in res['sites'][:5]:
+    ctx.broken('correspondence:site model differs from migration %d' % sinfo[i][0],
+               'cell %r: the real migration %s' % (sinfo[i][1], 'raised %r' % (sinfo[i][2],) if sinfo[i][2] else 'returned'))
   for i in res['tds'][:5]:
     ctx.broken('correspondence:TableDataSet model differs from table_data_set.TableDataSet',
                'actions %r on %r (real: %r)' % (kept[i][1], kept[i][0], kept[i][2]))
@@ -1157,17 +1179,23 @@ def check_doc(ctx, doc, mo, label):
   """Run one document; report violations; returns the run."""
   r = run_doc(doc, mo)
   cur = current_version()
-  ctx.count((label, doc.version, ctx.evaluations), nontrivial=doc.version < cur or bool(doc.user_tables),
+  ctx.count((doc.version, mo, repr(r.before)), nontrivial=doc.version < cur or bool(doc.user_tables),
             kind='search:%s' % label)
   if r.exc is not None:
     w = witness_of(doc, mo, r.before)
     for kind, what, wit in classify(w, r):
-      ctx.bump('search:raises:' + kind)
-      ctx.violation(kind, what, wit)
+      report(ctx, kind, what, lambda: wit)
   else:
     for kind, what in problems(r):
-      ctx.violation(kind, what, witness_of(doc, mo, r.before))
+      report(ctx, kind, what, lambda: witness_of(doc, mo, r.before))
   return r
+
+
+def report(ctx, kind, what, witness):
+  """Every failure is counted; at most 3 per kind are kept as violations (each with its replayable document)."""
+  ctx.bump('search:fails:' + kind)
+  if ctx.hist['search:fails:' + kind] <= 3:
+    ctx.violation(kind, what, witness())
 
 
 def search(ctx):
@@ -1189,11 +1217,11 @@ def search(ctx):
       doc.tds.apply_doc_action(mods()[0].UpdateRecord('_grist_DocInfo', 1, {'schemaVersion': v}))
       doc.version = v
       r = run_doc(doc, False)
-      ctx.count(('current', v, ctx.evaluations), nontrivial=True, kind='search:current-or-newer')
+      ctx.count(('current', v, repr(r.before)), nontrivial=True, kind='search:current-or-newer')
       last = mods()[0].UpdateRecord('_grist_DocInfo', 1, {'schemaVersion': cur})
       if r.exc is not None or r.acts != [last] or r.rec or canon(user_part(r.before)) != canon(user_part(r.after)):
-        ctx.violation('current-doc-not-noop', 'a document at version %d: %r' % (v, r.exc or r.acts[:3]),
-                      dict(witness_of(doc, False, r.before), version=cur, docinfo_version=v))
+        report(ctx, 'current-doc-not-noop', 'a document at version %d: %r' % (v, r.exc or r.acts[:3]),
+               lambda: dict(witness_of(doc, False, r.before), version=cur, docinfo_version=v))
   # robustness stream: inconsistent documents, counted but outside the premise
   raised = {}
   for doc in doc_stream(ctx, ctx.n(2, 20), 'expected'):
@@ -1222,3 +1250,105 @@ def replay(ctx, w):
     return found[0][1] if found else None
   ps = problems(r)
   return ps[0][1] if ps else None
+
+
+# ---------------------------------------------------------------------------------------------
+# The JSON-reading sites (Model/MigrateSites.v): real migration on a one-cell document vs the site model
+
+def _one_table(cols, **extra):
+  n = len(cols)
+  return {'_grist_Tables': {'ids': [1], 'cols': {'tableId': ['Table1']}},
+          '_grist_Tables_column': {'ids': list(range(1, n + 1)), 'cols': dict(
+            {'parentId': [1] * n, 'colId': [c for c, _ in cols], 'type': [t for _, t in cols],
+             'parentPos': [float(i + 1) for i in range(n)]}, **extra)}}, \
+         [['Table1', [dict(id=c, type=t, isFormula=False, formula='') for c, t in cols], [], {}]]
+
+SITE_KEY = '3'
+
+
+def site_witness(n, text):
+  """The smallest document on which migration n parses `text`."""
+  if n == 15:
+    return {'version': 14, 'user': [], 'tables': {
+      '_grist_Views_section': {'ids': [1], 'cols': {'filterSpec': [text]}},
+      '_grist_Views_section_field': {'ids': [1], 'cols': {'parentId': [1], 'colRef': [int(SITE_KEY)]}}}}
+  if n == 16:
+    tables, user = _one_table([('A', 'Ref:Table1')], widgetOptions=[text])
+    return {'version': 15, 'tables': tables, 'user': user}
+  if n == 29:
+    tables, user = _one_table([('A', 'Text')], widgetOptions=[text], rules=['[99]'])
+    return {'version': 28, 'tables': tables, 'user': user}
+  if n == 34:
+    return {'version': 33, 'user': [], 'tables': {'_grist_Views_section': {'ids': [1], 'cols': {'options': [text]}}}}
+  if n == 35:
+    return {'version': 34, 'user': [], 'tables': {'_grist_ACLRules': {'ids': [1], 'cols': {'aclFormulaParsed': [text]}}}}
+  return {'version': 44, 'user': [], 'tables': {'_grist_Cells': {'ids': [1], 'cols': {'content': [text]}}}}
+
+SITE_COL = {15: 'filterSpec', 16: 'widgetOptions', 29: 'widgetOptions', 34: 'options', 35: 'aclFormulaParsed',
+            45: 'content'}
+SITE_EXC = dict(EXC_CODE, ValueError=6, OverflowError=7)
+
+
+def gen_json(rng, depth=2):
+  scalars = [None, True, False, 0, 1, -1, 5, 0.0, -0.0, 1.5, float('nan'), float('inf'), -float('inf'), 2 ** 999,
+             10 ** 400, -10 ** 400, 1700000000000, '', 's', '3', 'x3y', 'Comment', 'visibleCol', 'id', 'A']
+  r = rng.random()
+  if depth == 0 or r < 0.45:
+    return rng.choice(scalars)
+  if r < 0.7:
+    return [gen_json(rng, depth - 1) for _ in range(rng.randint(0, 4))]
+  keys = ['visibleCol', 'filterBar', 'timeCreated', 'timeUpdated', 'resolved', 'a', '3', '0', 'rulesOptions']
+  return {k: gen_json(rng, depth - 1) for k in rng.sample(keys, rng.randint(0, 3))}
+
+
+def cjson(v):
+  if v is None:
+    return 'JNull'
+  if v is True or v is False:
+    return 'JBool %s' % core.boollit(v)
+  if isinstance(v, int):
+    return 'JNum (JInt %s)' % core.zlit(v)
+  if isinstance(v, float):
+    return 'JNum (JFlt %d%%Z)' % struct.unpack('<Q', struct.pack('<d', v))[0]
+  if isinstance(v, str):
+    return 'JStr %s' % cstr(v)
+  if isinstance(v, list):
+    return 'JArr %s' % core.coq_list(['(%s)' % cjson(x) for x in v])
+  if isinstance(v, dict):
+    return 'JObj %s' % core.coq_list(['(%s, (%s))' % (cstr(k), cjson(x)) for k, x in v.items()])
+  raise Unencodable('json %r' % (v,))
+
+SITE_TYPE = 'Z * str * json * Z * bool'
+SITE_CHECK = "fun c => let '(n, key, j, raised, ws) := c in check_site n key j raised ws"
+
+
+def site_cases(ctx):
+  cases, info = [], []
+  for n, col in sorted(SITE_COL.items()):
+    texts = list(EXPECTED[col]) + list(ODD[col]) + \
+            [json.dumps(gen_json(ctx.rng)) for _ in range(ctx.n(25, 200))]
+    for text in texts:
+      try:
+        parsed = json.loads(text)
+      except ValueError:
+        continue                      # not JSON: the real code falls back to {} / skips; not a site input
+      if text == '' or (n == 29 and not text):
+        continue
+      w = dict(site_witness(n, text), metadata_only=False)
+      r = run_w(w)
+      if r.exc is not None and r.site != 'm%d' % n:
+        ctx.broken('sites:one-cell document for migration %d fails elsewhere' % n, '%r: %s in %s' % (text, r.exc, r.site))
+        continue
+      code = 0 if r.exc is None else SITE_EXC.get(type(r.exc).__name__)
+      if code is None:
+        ctx.bump('sites:outside-model-domain')
+        continue
+      ws = bool(WELL_SHAPED[col](parsed))
+      cases.append('(%s, %s, (%s), %s, %s)' % (core.zlit(n), cstr(SITE_KEY), cjson(parsed), core.zlit(code),
+                                               core.boollit(ws)))
+      info.append((n, text, r.exc))
+      ctx.count(('site', n, text), nontrivial=True, kind='sites:m%d:%s' % (n, 'raises' if code else 'ok'),
+                sample={'migration': n, 'cell': text, 'raises': type(r.exc).__name__ if r.exc else None})
+      if ws and code:
+        ctx.broken('sites:migration %d raises on a cell of the expected shape' % n, '%r -> %r' % (text, r.exc))
+  return cases, info
